@@ -5,6 +5,8 @@
 #include <chrono>
 #include <unistd.h>
 #include <signal.h>
+#include <fcntl.h>
+#include <unistd.h>
 
 extern "C" void __sanitizer_set_death_callback(void (*)(void)) __attribute__((weak));
 
@@ -51,9 +53,51 @@ static void death_cb()
 		write_case_file(g_crash_path, g_cur, g_mode, g_kf_csv, "sanitizer/abort");
 	}
 }
+// The same from inside a signal handler in a build without a sanitizer runtime: the crash may have happened inside
+// malloc/free with the allocator's lock held, so nothing here may allocate or use stdio - open/write only, the header
+// prepared in advance (death_prepare()).
+static char g_death_path[1024];
+static char g_death_hdr[4096];
+static size_t g_death_hdr_len;
+static void death_prepare()
+{
+	snprintf(g_death_path, sizeof g_death_path, "%s", g_crash_path.c_str());
+	int n = snprintf(g_death_hdr, sizeof g_death_hdr, "VERIFCASE v1\nharness: %s\nmode: %s\nkf: %s\nwhy: signal\n%s%s%shex: ", HARNESS_ID, g_mode.c_str(), g_kf_csv.c_str(),
+	                 getenv("VERIF_HASHSEED") ? "env: VERIF_HASHSEED=" : "", getenv("VERIF_HASHSEED") ? getenv("VERIF_HASHSEED") : "", getenv("VERIF_HASHSEED") ? "\n" : "");
+	g_death_hdr_len = n < 0 ? 0 : (size_t)n < sizeof g_death_hdr ? (size_t)n : sizeof g_death_hdr - 1;
+}
+static void death_write_raw()
+{
+	if (!g_death_path[0])
+		return;
+	int fd = open(g_death_path, O_WRONLY | O_CREAT | O_TRUNC, 0644);
+	if (fd < 0)
+		return;
+	ssize_t w = write(fd, g_death_hdr, g_death_hdr_len);
+	static const char hx[] = "0123456789abcdef";
+	char chunk[1024];
+	size_t n = g_cur.size(), at = 0;
+	const uint8_t *d = g_cur.data();
+	while (at < n)
+	{
+		size_t k = 0;
+		for (; at < n && k + 2 <= sizeof chunk; at++)
+		{
+			chunk[k++] = hx[d[at] >> 4];
+			chunk[k++] = hx[d[at] & 15];
+		}
+		w = write(fd, chunk, k);
+	}
+	w = write(fd, "\n", 1);
+	(void)w;
+	close(fd);
+}
 static void abort_handler(int sig)
 {
-	death_cb();
+	if (sig == SIGABRT)
+		death_cb();
+	else
+		death_write_raw();
 	signal(sig, SIG_DFL);
 	raise(sig);
 }
@@ -376,6 +420,7 @@ static int driver_main(int argc, char **argv)
 			mode = modes[0].name;
 		g_mode = mode;
 		g_crash_path = out.empty() ? "" : out + ".crash";
+		death_prepare();
 		harness_init(mode);
 		RunResult r = run_once(buf, nullptr, 0, mode, kf, nullptr, false, true, mode_is_enum(mode));
 		printf("%s", r.desc.c_str());
@@ -401,6 +446,7 @@ static int driver_main(int argc, char **argv)
 	}
 	g_mode = mode;
 	g_crash_path = out + ".crash";
+	death_prepare();
 	harness_init(mode);
 	bool is_enum = mi->enum_size > 0;
 	Stats st;
@@ -537,6 +583,7 @@ static int driver_main(int argc, char **argv)
 		printf("%s\n", o.c_str());
 	fflush(stdout);
 	g_crash_path.clear(); // nothing after this point belongs to a case
+	g_death_path[0] = 0;
 	// skip atexit leak checks of a deliberately abandoned failing case
 	if (rc != 0)
 		_exit(rc);
